@@ -616,9 +616,20 @@ impl<'a> Exec<'a> {
                         if !r.refused() {
                             return viol("merge:mismatch-not-refused", format!("inputs differ in {why} but merge ended with {}", r.status_str()));
                         }
+                        // "no output file is written", and a refusal does not touch what was there;
+                        // anything else a refused merge leaves behind (a temporary file) is a probe
                         let after = self.snapshot();
-                        if after != before {
-                            return viol("merge:refusal-changed-files", format!("refused merge ({why}) changed the directory: before {:?} after {:?}", before.keys().collect::<Vec<_>>(), after.keys().collect::<Vec<_>>()));
+                        let touched: Vec<&String> = before.keys().filter(|k| before.get(*k) != after.get(*k)).collect();
+                        let wrote_output = [skf(out), out.clone()].iter().any(|o| !before.contains_key(o) && after.contains_key(o));
+                        if !touched.is_empty() || wrote_output {
+                            return viol("merge:refusal-changed-files", format!("refused merge ({why}) changed the directory: changed or removed {touched:?}, output written: {wrote_output}; before {:?} after {:?}", before.keys().collect::<Vec<_>>(), after.keys().collect::<Vec<_>>()));
+                        }
+                        let stray: Vec<String> = after.keys().filter(|k| !before.contains_key(*k)).cloned().collect();
+                        if !stray.is_empty() {
+                            probe("refused_merge_left_stray_files");
+                            for f in stray {
+                                self.dir.remove(&f);
+                            }
                         }
                     }
                     Ok(exp) => {
@@ -685,8 +696,18 @@ impl<'a> Exec<'a> {
                         if !r.refused() {
                             return viol(&format!("delete:bad-names-not-refused{rep}"), format!("{why} (request {names:?}): delete ended with {}", r.status_str()));
                         }
-                        if self.snapshot() != before {
-                            return viol("delete:refusal-changed-files", format!("refused delete ({why}) changed a file"));
+                        let after = self.snapshot();
+                        let touched: Vec<&String> = before.keys().filter(|k| before.get(*k) != after.get(*k)).collect();
+                        let wrote_output = out.as_ref().map(|o| [skf(o), o.clone()].iter().any(|x| !before.contains_key(x) && after.contains_key(x))).unwrap_or(false);
+                        if !touched.is_empty() || wrote_output {
+                            return viol("delete:refusal-changed-files", format!("refused delete ({why}) changed or removed {touched:?}, output written: {wrote_output}"));
+                        }
+                        let stray: Vec<String> = after.keys().filter(|k| !before.contains_key(*k)).cloned().collect();
+                        if !stray.is_empty() {
+                            probe("refused_delete_left_stray_files");
+                            for f in stray {
+                                self.dir.remove(&f);
+                            }
                         }
                     }
                     Ok(exp) => {
